@@ -205,6 +205,38 @@ func ruleAliasFree(e *Env, rule string, semOnly bool) {
 			e.S.Ok(rule, pkg, "imports", "no unsafe import", "")
 		}
 	}
+	// … nor by any other package of the module that the parsers reach (a helper package that turns bytes into a
+	// string without copying): the packages of every function in the call-graph closure of the parser entry points
+	var roots []*ssa.Function
+	for _, pkg := range ValuePkgs {
+		if semOnly && pkg != "sem" {
+			continue
+		}
+		roots = append(roots, parserEntryFuncs(e, rule, pkg)...)
+		for _, m := range unmarshalMethods {
+			if m[0] == pkg {
+				if f := e.P.Method(m[0], m[1], m[2]); f != nil {
+					roots = append(roots, f)
+				}
+			}
+		}
+	}
+	listed := map[string]bool{"internal": true}
+	for _, pkg := range ValuePkgs {
+		listed[pkg] = true
+	}
+	seenPkg := map[*types.Package]bool{}
+	for _, f := range flow.SortedFuncs(e.C.Reachable(roots...)) {
+		if f.Pkg == nil || seenPkg[f.Pkg.Pkg] || listed[f.Pkg.Pkg.Name()] {
+			continue
+		}
+		seenPkg[f.Pkg.Pkg] = true
+		for _, imp := range f.Pkg.Pkg.Imports() {
+			if imp.Path() == "unsafe" {
+				e.S.Bad(rule, f.Pkg.Pkg.Path(), "imports", "a package the parsers call into ("+flow.FnName(f)+") imports unsafe: a string made there can share memory with the caller's bytes", "", "")
+			}
+		}
+	}
 }
 
 func firstReference(t types.Type, depth int) string {
@@ -311,6 +343,12 @@ func ruleGeneric(e *Env, entries []*ssa.Function) {
 								continue
 							}
 							mi, ok := args[ix].(*ssa.MakeInterface)
+							if ok && !mentionsTypeParam(mi.X.Type()) && dependsOnInputParam(mi.X.Type(), 0) && (it.Verb == 'T' || it.Verb == 'v' && strings.ContainsAny(it.Flags, "#+")) {
+								// a value of a type instantiated with the input's type (*ParseError[T]): %T and %#v print the
+								// type's name, which names string or []uint8
+								e.S.Bad(rule, site, "verb %"+it.Flags+string(it.Verb), fmt.Sprintf("operand %d of %q has a type built from the input's type parameter (%s) and is printed with %%%s%c, which spells out the instantiation: string and []byte callers get different messages", ix, format, mi.X.Type(), it.Flags, it.Verb), e.posOf(x), "")
+								bad = true
+							}
 							if !ok || !mentionsTypeParam(mi.X.Type()) {
 								continue
 							}
@@ -381,6 +419,14 @@ func mentionsTypeParam(t types.Type) bool {
 		return mentionsTypeParam(u.Elem())
 	case *types.Slice:
 		return mentionsTypeParam(u.Elem())
+	case *types.Array:
+		return mentionsTypeParam(u.Elem())
+	case *types.Struct:
+		for i := 0; i < u.NumFields(); i++ {
+			if mentionsTypeParam(u.Field(i).Type()) {
+				return true
+			}
+		}
 	}
 	return false
 }
